@@ -55,18 +55,22 @@ def run(run, replay=None):
             if n % 200 == 0:
                 run.sample({'ids': ids, 'inserted': [(si, pos, k[:20], v[:20]) for si, pos, k, v in ins]})
             n += 1
-    can = []
-    pool = [c for c in cases if c['recs']]
-    for k, c in enumerate(rng.sample(pool, min(8, len(pool)))):
-        z = copy.deepcopy(c)
-        z['canary_of'] = z['id']
-        z['id'] = 'canary-%d' % k
-        if k % 2:
-            sec = z['ins'][0]['sec'] - 1
-            z['recs'][sec]['opts'] = [o for o in z['recs'][sec]['opts'] if o['k'] != z['ins'][0]['k']]
-        else:
-            z['ins'][0]['v'] = z['ins'][0]['v'] + [120]
-        can.append(z)
+    def _mk_canaries():
+        can = []
+        pool = [c for c in cases if c['recs'] and c['end'] == c['baseend'] and len(c['recs']) == len(c['base'])
+                and all(x['sec'] <= len(c['recs']) for x in c['ins'])]
+        for k, c in enumerate(rng.sample(pool, min(8, len(pool)))):
+            z = copy.deepcopy(c)
+            z['canary_of'] = z['id']
+            z['id'] = 'canary-%d' % k
+            if k % 2:
+                sec = z['ins'][0]['sec'] - 1
+                z['recs'][sec]['opts'] = [o for o in z['recs'][sec]['opts'] if o['k'] != z['ins'][0]['k']]
+            else:
+                z['ins'][0]['v'] = z['ins'][0]['v'] + [120]
+            can.append(z)
+        return can
+    can = run.tolerant(_mk_canaries)
     run.judge('Trace_Reader', cases + can, cat.tables(), canary_ids=[c['id'] for c in can],
               describe=describe)
     return run.finish(
